@@ -247,7 +247,8 @@ def _selector_entry(mod, modname, cls):
             s2 = C(n_to_select=3)
             s2.fit_transform(X, y)
         s.n_to_select = 4
-        s.fit(X, y, warm_start=True)
+        checked_fit(ctx, s, X, y, warm_start=True)
+        checked_fit(ctx, s, X, y, warm_start=True)        # a continuation with nothing left to select is still a fit
         if not need_y:
             C(n_to_select=2).fit(X)
         s.score(X, y)
@@ -283,7 +284,8 @@ def _voronoi(ctx, X, y):
     queries_pure(ctx, s, [("get_support(indices)", lambda: s.get_support(indices=True)), ("get_support(indices,ordered)", lambda: s.get_support(indices=True, ordered=True)),
                           ("get_distance", lambda: s.get_distance()), ("get_select_distance", lambda: s.get_select_distance())])
     s.n_to_select = 5
-    s.fit(X, y, warm_start=True)
+    checked_fit(ctx, s, X, y, warm_start=True)
+    checked_fit(ctx, s, X, y, warm_start=True)
     s.get_distance()
     s.get_select_distance()
 
